@@ -262,6 +262,13 @@ def fault_check(res):
                 except BaseException:  # noqa: BLE001 - the failure surfaced: nothing is reported, nothing to judge
                     res.count("fault_runs_where_the_failure_surfaced")
                     continue
+                reported = [row[0] for row in rows if row[0] in texts]
+                if reported != list(texts):
+                    # a result was returned: the slot of every element must be about that element (not about a sibling that was evaluated in its place)
+                    res.violation(f"fault scenario ({exc.__name__} once while evaluating [901] for {victim}, entry {entry}): the elements are {list(texts)}, results are "
+                                  f"reported for {reported} - an element's slot carries the evaluation of another element's expression and input",
+                                  {"scenario": "fault", "kind": "fault", "victim": victim, "exception": exc.__name__, "entry": entry})
+                    continue
                 for row in rows:
                     if row[0] not in texts:
                         continue
